@@ -1060,9 +1060,30 @@ def check_split_uniform(case, rec):
     rec.case(case, nontrivial=any(st_["n_trans"] for st_ in stats), classes=sorted(cl))
 
 
+def _on_internal_boundary(case):
+    if "stack" in case:
+        inner = [l["range"][0] for l in case["stack"]["layers"][:-1]]
+    else:
+        inner = list(case["splits"])
+    return case["a"][2] in inner or case["b"][2] in inner
+
+
+def _boundary_artifact(case, msg):
+    """Artifacts of LayeredRayTracer's handling of an endpoint lying exactly on an internal
+    boundary (duplicate-point skipping in `solutions`): the same ray returned twice when both
+    endpoints are on one boundary; for a vertical pair, an upward launch angle of 0 attached to
+    a downward index path, which passes the undeclared-index test."""
+    if not _on_internal_boundary(case):
+        return False
+    if DUP_MARK in msg:
+        return True
+    vertical = case["a"][0] == case["b"][0] and case["a"][1] == case["b"][1]
+    return vertical and "although no index is declared" in msg
+
+
 def _classify_split_uniform(case, exc):
-    if DUP_MARK in str(exc):
-        return "duplicate-solution-endpoints-on-internal-boundary"
+    if _boundary_artifact(case, str(exc)):
+        return "endpoint-on-internal-boundary"
     if F7_MARK in str(exc):
         return "reflected-path-drops-source-xy"
     return None
@@ -1239,8 +1260,8 @@ def guard_defeated(layers):
 
 def _classify_layered(case, exc):
     msg = str(exc)
-    if DUP_MARK in msg:
-        return "duplicate-solution-endpoints-on-internal-boundary"
+    if _boundary_artifact(case, msg):
+        return "endpoint-on-internal-boundary"
     if "stack" in case:
         layers = case["stack"]["layers"]
     else:
@@ -1251,11 +1272,12 @@ def _classify_layered(case, exc):
         return "one-degree-scan-misses-roots"
     if _relevant_depth_pairs_flat(layers, case):
         return "flat-index-pair"
-    if guard_defeated(layers) and (F17_MARK in msg or "has no layered counterpart" in msg
-                                   or "non-finite" in msg or "NaN" in msg or "nan" in msg):
-        return "z-uniform-guard-clamped-to-layer-top"
     if F17_MARK in msg:
         return "closed-form-cancellation"
+    if guard_defeated(layers) and ("has no layered counterpart" in msg or "non-finite" in msg
+                                   or "NaN" in msg or "nan" in msg):
+        # (solutions lost / NaN because the closed forms are evaluated beyond z_uniform)
+        return "z-uniform-guard-clamped-to-layer-top"
     return None
 
 
@@ -1369,8 +1391,10 @@ def check_chain_case(case, rec):
     if all(l["cls"] == "UniformIce" for l in stack["layers"]):
         fm = _fermat_uniform(a, b, stack)
         plain = [(s, st_) for s, st_ in zip(sols, stats) if st_["n_refl"] == 0 and st_["n_indirect"] == 0]
+        bounds_in = [l["range"][0] for l in stack["layers"][:-1]]
         require(len(plain) <= 1, "%d reflection-free solutions through uniform layers (the refracted ray is "
-                "unique); %s", len(plain), geom)
+                "unique); %s%s", len(plain), geom,
+                (" " + DUP_MARK) if (a[2] == b[2] and a[2] in bounds_in) else "")
         if fm is not None and plain:
             s = plain[0][0]
             res = _residual_budget(s.paths)
@@ -1455,6 +1479,25 @@ PROPERTY = Property(
                  floors={"transmission": 0.4, "boundary_reflection": 0.2, "fermat_checked": 0.1},
                  classify=_classify_layered, shrink_cap=(30, 180)),
     ],
-    assumptions=[],
+    assumptions=[
+        "max_reflections is assigned on the tracer instance before `solutions` is first read (staleness after a "
+        "read belongs to C06)",
+        "'splitting a medium' means: layers with the medium's own parameters, inner-facing boundary indices "
+        "left undeclared (None = matched), outer-facing indices those of the medium; LayeredIce gets the medium's "
+        "index_above/index_below",
+        "a solution whose Fresnel factors are below 1e-9 (+ rounding eps/cos^2 at grazing incidence) carries "
+        "nothing: its presence or absence on either side of a reduction is immaterial",
+        "the analytic tracer's documented approximations are part of its contract (as in C01): below "
+        "beta_tolerance = 0.005 a ray is treated as vertical (junction points and azimuths of such layered "
+        "solutions are not decided, lengths/times are, with the C01 allowance); below z_uniform relative "
+        "differences up to 1.5 (1 - uniformity_factor) are allowed; LayeredRayTracer._angle_precision = 1e-12 rad "
+        "bounds the junction-point residual that enters direction tolerances of short sub-paths",
+        "exponential split media are exercised at depths above 30/a (index resolvably below n0, cf. F16); endpoint "
+        "depths closer than 1e-6 m count as equal; coincident endpoints are exercised for the uniform tracer only",
+        "Fresnel factors of genuinely different layers are not part of the statement and are not checked (only "
+        "unit transmission / vanishing phantom reflections in split media)",
+        "completeness of LayeredRayTracer for genuinely different layers is only demanded for the refracted ray "
+        "through all-uniform stacks (Fermat oracle); for split media it is demanded against the unsplit tracer",
+    ],
     design_ref="3/C18",
 )
